@@ -298,7 +298,14 @@ RasterStep(k, rec) ==
            side == RasterSide(reg, n, o)
        IN /\ Require(rec.qr_unchanged = 1, k, rec, "C14", "rendering modified the QR code")
           /\ Require(side, k, rec, "C13", "pixmap is not the expected square")
-          /\ (side =>
+          \* growth (G06, not a listed property): with an embedded image configured the frame is drawn over the symbol; the cell at
+          \* the frame centre (requested position, or the symbol centre) shows the frame colour -- ImageBuilder forwards those options
+          /\ ((side /\ reg.hasImage /\ o.cells = cells /\ Len(o.centre) = cells) =>
+                LET cx == IF reg.pos # <<>> THEN reg.pos[1] \div 1000 ELSE cells \div 2
+                    cy == IF reg.pos # <<>> THEN reg.pos[2] \div 1000 ELSE cells \div 2
+                    idx == CentreIdx(o, cx, cy)
+                IN Require(idx < Len(o.palette) /\ ColNear(o.palette[idx + 1], Premul(reg.imgBg.rgba)), k, rec, "G06", "frame colour not found at the frame centre (embedded-image options not forwarded to the rasterised document)"))
+          /\ ((side /\ ~reg.hasImage) =>
                 /\ ((RasterColorsJudgeable(reg) /\ (o.w >= 4*cells \/ (AllSquare(reg) /\ o.scale_int >= 1))) =>
                        Require(RasterCentres(reg, n, rec.vals, o), k, rec, "C13", "centre pixel of a cell is not the module / background colour"))
                 /\ ((AllSquare(reg) /\ o.scale_int >= 1) =>
